@@ -131,6 +131,7 @@ type wireEx struct {
 	Aborted     bool          // the client never ended the request stream (upload abandoned)
 	RespFields  [][2]string   // the final response header block
 	RespInterim [][][2]string // 1xx blocks before it, in order
+	RespPartial bool          // the response header block was never completed / was rejected: RespFields = the fields decoded
 	RespData    []byte
 }
 
@@ -501,6 +502,13 @@ func h23PartsOf(w wireEx, rs respSpec, method string, finalBody []byte, isFinal 
 			p.ReqBodySep = []byte("\r\n\r\n")
 		}
 	}
+	if w.RespPartial { // the lines that were decoded, no closing CRLF, no body
+		for _, f := range w.RespFields {
+			p.RespHeader = append(p.RespHeader, f[0]+": "+f[1]+"\r\n"...)
+		}
+		p.NoResp = true
+		return p
+	}
 	if w.RespFields == nil { // the stream was reset: no response at all
 		p.NoResp = true
 		return p
@@ -543,8 +551,9 @@ func pairs23(r *hk.Run, rng *hk.Rand, count int, st stack) {
 		ex := gen(rng)
 		cfg := genCfg(rng, r)
 		if ex.Retry && cfg.Request != nil {
-			cfg.Request.Set[slotOut] = true // see h1Pairs
+			cfg.forceRequestOutput() // see h1Pairs
 		}
+		forceCfg(&cfg, ex, rng, r)
 		id := ""
 		run := func(cfg *dumpCfg) (runOut, []wireEx) {
 			wc := newWroteCounter()
@@ -665,6 +674,10 @@ func pairs23(r *hk.Run, rng *hk.Rand, count int, st stack) {
 			if k >= len(resps) {
 				break
 			}
+			if w.RespPartial {
+				coqX = append(coqX, fmt.Sprintf("X2p %s %s", coqFields(w.ReqFields, pl), coqFields(w.RespFields, pl)))
+				continue
+			}
 			fin := ""
 			if st.ctor == "X2" {
 				fin = " " + hk.CoqBool(w.FinLast) + " " + hk.CoqBool(w.Aborted)
@@ -706,6 +719,7 @@ func pairs23(r *hk.Run, rng *hk.Rand, count int, st stack) {
 			continue
 		}
 		emitExch(r, cfg, coqX, xs, on.Sink, pl, map[string]interface{}{"kind": st.name, "exchange": ex, "dump": cfg}, st.name+"|"+keyOf(in), nt)
+		emitReqOps(r, cfg, in)
 	}
 }
 
